@@ -213,6 +213,7 @@ var textAtoms = []string{
 	"a", "Hello", " ", "  ", "\r\n", "\n", "\r", "\x00", "\t", "ä", "€", "😀", "\xff", "\xc3", "=", "?", "_", "=?", "?=",
 	"\"", "\\", "(", ")", "<", ">", ",", ";", ":", "@", ".", "/", "|", "\x7f", "\x1b", "Bcc: evil@example.com", "\r\nX-Injected: yes",
 	"\r\n\r\nbody", "=?UTF-8?q?x?=", "name.txt", "a b", "%", "'", "*", "[", "]",
+	"\u200c", "\u00ad", "\ufeff", "\u202e", "\u2028", "\u0085",
 }
 
 func genText(r *Rng, maxAtoms int) string {
